@@ -582,7 +582,7 @@ func c44(c *Ctx) {
 			for _, in := range b.Instrs {
 				if mu, ok := in.(*ssa.MapUpdate); ok && FieldLoad(fResCh)(mu.Map) {
 					nrec++
-					c.Expect(mu.Block() == sub.Block(), mu, ff, "channel-recorded-with-subscription", "the channel is recorded on a different path than the subscription")
+					c.Expect(together(mu, sub), mu, ff, "channel-recorded-with-subscription", "the channel is recorded on a different path than the subscription")
 					c.Expect(ParamV("xc")(mu.Key), mu, ff, "records-the-new-channel", "a different channel is recorded")
 				}
 			}
